@@ -11,11 +11,12 @@ import (
 // per run from the tape and never mutated after construction.
 
 type Item struct {
-	Name string
-	N    int
-	Tags []string
-	Sub  *Item
-	M    map[string]string
+	Name   string
+	N      int
+	Tags   []string
+	Sub    *Item
+	M      map[string]string
+	secret string // unexported: not reachable from templates
 }
 
 func (i Item) Title() string    { return "T:" + i.Name }
@@ -30,18 +31,19 @@ func (b Base) Hello() string { return "hello " + b.BaseName }
 
 type Root struct {
 	Base
-	Title  string
-	Count  int
-	Items  []Item
-	Names  []string
-	One    map[string]int
-	Nested *Root
-	Flag   bool
-	Zero   int
-	Empty  string
-	NilP   *Item
-	Arr    [2]int
-	Any    interface{}
+	Title   string
+	Count   int
+	Items   []Item
+	Names   []string
+	One     map[string]int
+	Nested  *Root
+	Flag    bool
+	Zero    int
+	Empty   string
+	NilP    *Item
+	Arr     [2]int
+	Any     interface{}
+	NoNames []string // always empty (non-nil)
 }
 
 func (r *Root) First() Item {
@@ -79,9 +81,9 @@ func GenData(t *sim.Tape, tag int) DataSpec {
 
 func (d DataSpec) BuildRoot() *Root {
 	r := &Root{Base: Base{BaseName: fmt.Sprintf("bn%d", d.Tag), Shared: 7}, Title: d.Title, Count: d.Count, Flag: d.Flag,
-		One: map[string]int{"k": d.Tag}, Arr: [2]int{4, 2}, Any: "any"}
+		One: map[string]int{"k": d.Tag}, Arr: [2]int{4, 2}, Any: "any", NoNames: []string{}}
 	for i := 0; i < d.NItems; i++ {
-		it := Item{Name: fmt.Sprintf("it%d.%d", d.Tag, i), N: i + 1, Tags: []string{fmt.Sprintf("tg%d", i)}, M: map[string]string{"mk": fmt.Sprintf("mv%d", i)}}
+		it := Item{Name: fmt.Sprintf("it%d.%d", d.Tag, i), N: i + 1, Tags: []string{fmt.Sprintf("tg%d", i)}, M: map[string]string{"mk": fmt.Sprintf("mv%d", i)}, secret: "PRIVATE"}
 		if i == 0 {
 			it.Sub = &Item{Name: "sub", N: 9}
 		}
